@@ -215,7 +215,15 @@ def h_world(sp, n_ids=2, n_types=3, build=True, steps=1, ops_ids=3, universe='ch
                 if e in m.tainted:
                     sp.assume(False)
                 c = T()
-                sp.note('add_component(%r, %s())' % (e, T.__name__))
+                donors = [c2 for e2, comps in sorted(m.ents.items(), key=repr) if e2 != e
+                          for t2, c2 in comps.items() if t2 is T]
+                if donors and sp.flag('share%d' % step):
+                    # the SAME instance that another entity already owns (a shared component)
+                    c = donors[0]
+                    sp.cover('shared-instance')
+                    sp.note('add_component(%r, <the %s instance another entity owns>)' % (e, T.__name__))
+                else:
+                    sp.note('add_component(%r, %s())' % (e, T.__name__))
                 replacing = T in m.ents.get(e, {})
                 w.add_component(e, c)
                 if replacing:
@@ -450,7 +458,7 @@ HARNESSES = {
     'world': dict(fn=h_world,
                   nontrivial=['replace', 'remove', 'delete-deferred', 'delete-immediate', 'process-deletes',
                               'create-auto'],
-                  required=['replace', 'remove', 'delete-deferred', 'delete-immediate', 'create-auto']),
+                  required=['replace', 'remove', 'delete-deferred', 'delete-immediate', 'create-auto', 'shared-instance']),
 }
 
 TIERS = {
@@ -500,6 +508,7 @@ BOUNDS = {
 }
 ASSUMPTIONS = [
     'components in one create_entity call have distinct exact types',
+    'one component instance may be attached to two entities at once (add_component of an instance another entity owns): every owner is listed',
     're-populating an id that was emptied while its deferred-deletion mark was pending is outside the claim '
     '(the statement does not say which incarnation the mark belongs to); such paths are cut by assume',
     'delete_entity is only called on entities that own components (documented KeyError otherwise)',
